@@ -121,3 +121,17 @@ def admit(**kw):
         if eval(region, {"P": P}, dict(kw)):
             return False
     return True
+
+
+# ------------------------------------------------------------------ tracing control
+import contextlib
+
+
+def untraced():
+    """Run a purely concrete stretch of a harness outside CrossHair's tracer (no symbolic value may be involved:
+    everything inside behaves exactly as in native execution, just faster).  A no-op natively."""
+    try:
+        from crosshair.tracers import NoTracing, is_tracing
+    except Exception:
+        return contextlib.nullcontext()
+    return NoTracing() if is_tracing() else contextlib.nullcontext()
